@@ -24,7 +24,7 @@ LEVEL_NOTE = ("coordinate and line-tracking theorems hold for every text, offset
 
 COMMANDS = ["nesting", "srp", "stateless-class", "method-property", "magic-numbers", "print-statements", "perf", "pipeline", "dry", "unwrap-abuse", "clone-abuse",
             "blocking-async", "lbyl", "file-header", "lazy-ignores", "stringly-typed"]
-CONFIG = {"dry": {"enabled": True, "min_duplicate_lines": 3, "detect_duplicate_constants": False}, "unwrap-abuse": {"allow_expect": False},
+CONFIG = {"dry": {"enabled": True, "min_duplicate_lines": 3, "detect_duplicate_constants": True}, "unwrap-abuse": {"allow_expect": False},
           "srp": {"max_methods": 7}, "file-header": {"enabled": True}}
 FILE_LEVEL = ("file-header", "file-placement")
 
@@ -115,7 +115,7 @@ def docstring_lines(text: str) -> set:
     return res
 
 
-QUOTED = [(re.compile(r"^Function '([^']+)'"), None), (re.compile(r"^Class '([^']+)'"), None), (re.compile(r"^Method '([^']+)' in class"), None),
+QUOTED = [(re.compile(r"^Duplicate constant '([^']+)'"), None), (re.compile(r"^Function '([^']+)'"), None), (re.compile(r"^Class '([^']+)'"), None), (re.compile(r"^Method '([^']+)' in class"), None),
           (re.compile(r"^Magic number (\S+) should"), "number"), (re.compile(r"'(\w+) \+='"), None), (re.compile(r"'((?:\w+\.)+\w+)\(\)'"), None)]
 
 
